@@ -99,8 +99,64 @@ def random_dataset(rng, nmax=8, mmax=6, names=None):
 
 def observe(ds):
     """the dataset's rankings as lists of buckets in the iteration order the interpreter produces"""
-    return [[[e.value for e in b] for b in r.buckets] for r in ds.rankings]
+    return [[[back(e.value) for e in b] for b in r.buckets] for r in ds.rankings]
 
 
 def id_order(ds):
-    return [ds.mapping_id_elem[i].value for i in range(ds.nb_elements)]
+    return [back(ds.mapping_id_elem[i].value) for i in range(ds.nb_elements)]
+
+
+# ----------------------------------------------------------------------------------------------------------------------
+# per-case context set by common.run_check before every run: optional renaming of the elements (names that are hostile to any
+# code that identifies an element or a ranking by its printed form) and an optional past of the dataset (algos.give_a_past).
+# Datasets built through algos.mk and read through observe / id_order / algos.lst / algos.groups see the renaming in both
+# directions, so that the model keeps working on the case's own integers.
+CURRENT = {}
+HOSTILE_NAMES = ["a", "b", "a}, {b", "a, b", "007", "-1", "x y", "[c]", "{d", "b}", "0x1f", "1e3", " "]
+
+
+def fwd(e):
+    m = CURRENT.get("_names")
+    if not m:
+        return e
+    for k, v in m:
+        if k == e:
+            return v
+    return e
+
+
+def back(v):
+    m = CURRENT.get("_names")
+    if not m:
+        return v
+    for k, w in m:
+        if w == v:
+            return k
+    return v
+
+
+def decorate_cases(cases, rng, names_rate=0.0, past_rate=0.0):
+    """give some cases hostile element names and / or a past (only cases with a dataset "D" over integers)"""
+    out = []
+    for c in cases:
+        if not (isinstance(c, dict) and isinstance(c.get("D"), list)) or "_names" in c or "_past" in c:
+            out.append(c)
+            continue
+        elems = sorted({e for r in c["D"] for b in r for e in b if isinstance(e, int)})
+        all_int = all(isinstance(e, int) for r in c["D"] for b in r for e in b)
+        c2 = c
+        if all_int and elems and len(elems) <= len(HOSTILE_NAMES) and rng.random() < names_rate:
+            c2 = dict(c2)
+            names = rng.sample(HOSTILE_NAMES, len(elems))
+            if all(n.isdigit() for n in names):
+                names[0] = "a"
+            c2["_names"] = [[e, n] for e, n in zip(elems, names)]
+        if all_int and elems and rng.random() < past_rate:
+            c2 = dict(c2)
+            D = [[list(b) for b in r] for r in c2["D"]]
+            for _ in range(rng.randint(1, 2)):
+                D.insert(rng.randint(0, len(D)), [])
+            c2["D"] = D
+            c2["_past"] = {"remove": [], "rate": None, "remove_empty": True}
+        out.append(c2)
+    return out
